@@ -113,7 +113,7 @@ def at_scale_case(ctx, g, rng):
 
 
 def run_case(ctx, g, rng):
-    if g % 199 == 199 - 1:
+    if g % (199 if ctx.tier == "quick" else 1601) == 198:
         return at_scale_case(ctx, g, rng)
     import curies
 
